@@ -29,8 +29,9 @@ func (d *Data) scan(ctx *datastore.VersionedCtx, w http.ResponseWriter, byCoord,
 	var numKV, numEmpty uint64
 	if keysOnly {
 		keyChan := make(storage.KeyChan)
+		var sendErr error
 		go func() {
-			store.SendKeysInRange(ctx, minTKey, maxTKey, keyChan)
+			sendErr = store.SendKeysInRange(ctx, minTKey, maxTKey, keyChan)
 			close(keyChan)
 		}()
 		for key := range keyChan {
@@ -38,6 +39,7 @@ func (d *Data) scan(ctx *datastore.VersionedCtx, w http.ResponseWriter, byCoord,
 				numKV++
 			}
 		}
+		err = sendErr
 	} else {
 		err = store.ProcessRange(ctx, minTKey, maxTKey, nil, func(chunk *storage.Chunk) error {
 			numKV++
